@@ -170,6 +170,8 @@ def cases(tier, r):
                     'tagged_standalone']
       yield 'api', {'seed': r.getrandbits(48), 'size': r.choice([3, 5, 8]), 'api': name,
                     'flavour': r.choice(flavours)}
+  for i, name in enumerate(n_ for n_ in API_NAMES if n_.startswith(('trim', 'graphviz', 'with_defaults', 'printing', 'codegen'))):
+    yield 'api', {'seed': 1000 + i, 'size': 3, 'api': name, 'flavour': 'edge_strings'}
 
 
 def make_root(case):
@@ -202,6 +204,14 @@ def make_root(case):
     inner = fdl.Config(immutable_init, scale=0.5, axes=(0,))
     fdl.add_tag(inner, 'scale', targets.T1)
     root = fdl.Config(graphs.node_fn(1, 0), p=root, q=inner, r=[inner, fdl.Partial(immutable_init, scale=2)])
+  if fl == 'edge_strings':
+    # leaves whose repr is longer than their str (quotes, escapes, paths) by just enough to straddle
+    # the trimming threshold (5): a helper that decides "nothing to trim" on one of the two lengths and
+    # trims by the other writes into its input
+    import pathlib
+    inner = fdl.Config(graphs.node_fn(1, 1), p='abcd', q='abcde', r='a\tb')
+    root = fdl.Config(graphs.node_fn(1, 0), p=root, q=inner, r=[inner, fdl.Config(graphs.node_fn(1, 2), p='abc', q=pathlib.PurePosixPath('a/b'))])
+    root = fdl.Config(graphs.node_fn(1, 0), p=root, q='wxyz', r="it's")
   # the top-level node carries tags of its own in every flavour: a shallow copy that shares the
   # per-argument tag sets, or a copy-returning API that tags through to its input, must show
   for k in list(root.__arguments__)[:3]:
